@@ -49,7 +49,8 @@ Definition lit_matches (l : lit) (v : value) : bool :=
             end
   end.
 
-Definition value_classes : list Z := [id_Bool; id_Nat; id_Int; id_Ratio; id_Float; id_Complex; id_Str; id_NoneType].
+Definition value_classes : list Z :=
+  [id_Bool; id_Nat; id_Int; id_Ratio; id_Float; id_Complex; id_Str; id_NoneType; id_GenericList].
 
 (* the values of a value class *)
 Definition prim (c : Z) (v : value) : bool :=
@@ -59,13 +60,36 @@ Definition prim (c : Z) (v : value) : bool :=
   else if (c =? id_Float) || (c =? id_Complex) then match val_num v with Some _ => true | None => false end
   else if c =? id_Str then match v with VStr _ => true | _ => false end
   else if c =? id_NoneType then match v with VNone => true | _ => false end
+  else if c =? id_GenericList then match v with VList _ => true | _ => false end
   else false.
 
-(* a nominal type: the values of the value classes declared below it (a list is a GenericList) *)
-Definition den_mono (c : Z) (v : value) : bool :=
-  match v with
-  | VList _ => c =? id_GenericList
-  | _ => existsb (fun k => prim k v && sub (TMono k) (TMono c)) value_classes
+(* A nominal type (also a super type with arguments, TPoly) admits the values of the value classes that are declared
+   below it: the upward closure of a value class along the super-type lists of coq/gen/Classes.v and the tower
+   Bool < Nat < Int < Ratio < Float < Complex (and ClassType, TraitType < Type) that cheap_supertype_of hard-wires.
+   A node is (id of the head, has type arguments). *)
+Definition node := (Z * bool)%type.
+Definition node_eqb (a b : node) : bool := (fst a =? fst b) && Bool.eqb (snd a) (snd b).
+Definition tower_edges : list (Z * Z) :=
+  [(id_Bool, id_Nat); (id_Nat, id_Int); (id_Int, id_Ratio); (id_Ratio, id_Float); (id_Float, id_Complex);
+   (id_ClassType, id_Type); (id_TraitType, id_Type)].
+Definition succs (n : node) : list node :=
+  match lookup (fst n) with Some r => row_sc r ++ row_st r | None => [] end ++
+  (if snd n then [] else map (fun e => (snd e, false)) (filter (fun e => fst e =? fst n) tower_edges)).
+Definition node_mem (n : node) (l : list node) : bool := existsb (node_eqb n) l.
+Definition node_add (l : list node) (n : node) : list node := if node_mem n l then l else l ++ [n].
+Fixpoint up_iter (fuel : nat) (seen : list node) : list node :=
+  match fuel with
+  | O => seen
+  | S f => up_iter f (fold_left (fun acc n => fold_left node_add (succs n) acc) seen seen)
+  end.
+(* 12 rounds are enough for the table (checked: Proofs, up_closed) *)
+Definition ups : list (Z * list node) := map (fun k => (k, up_iter 12 [(k, false)])) value_classes.
+Definition node_of (t : ty) : option node :=
+  match t with TMono c => Some (c, false) | TPoly h => Some (h, true) | _ => None end.
+Definition den_nom (t : ty) (v : value) : bool :=
+  match node_of t with
+  | Some n => existsb (fun ku => prim (fst ku) v && node_mem n (snd ku)) ups
+  | None => false
   end.
 
 Definition bound_num (b : bound) : option Z := lit_num (bound_lit b).
@@ -85,8 +109,7 @@ Fixpoint den (t : ty) (v : value) {struct t} : bool :=
   match t with
   | TNever => false
   | TObj => true
-  | TMono c => den_mono c v
-  | TPoly _ => false
+  | TMono _ | TPoly _ => den_nom t v
   | TRef b p => den b v && den_pred p v
   | TOr l => (fix any (l : list ty) : bool := match l with [] => false | x :: r => den x v || any r end) l
   | TAnd l => (fix all (l : list ty) : bool := match l with [] => true | x :: r => den x v && all r end) l
@@ -110,7 +133,7 @@ Definition int_bound (b : bound) : option Z :=
   match b with
   | BVal (LInt z) => Some z
   | BSucc z => Some (z + 1)
-  | BPred z => if z =? 0 then None else Some (z - 1)      (* pred(0): see Model.bound_lit *)
+  | BPred z => Some (z - 1)
   | _ => None
   end.
 
@@ -144,7 +167,7 @@ Fixpoint wf (t : ty) : bool :=
   | TNever | TObj => true
   | TMono c => registered_mono c
   | TPoly _ => false
-  | TRef (TMono c) p => existsb (Z.eqb c) value_classes && wf_ref c p
+  | TRef (TMono c) p => existsb (Z.eqb c) value_classes && negb (c =? id_GenericList) && wf_ref c p
   | TRef _ _ => false
   | TOr l => (2 <=? length l)%nat && nodup_tys l &&
              (fix all (l : list ty) : bool :=
@@ -154,6 +177,31 @@ Fixpoint wf (t : ty) : bool :=
                  match l with [] => true | x :: r => wf x && negb (is_and x) && negb (is_top_bot x) && all r end) l
   | TNot x => wf x
   | TList e n => wf e && match n with Some k => 0 <=? k | None => true end
+  end.
+
+(* the fragment for which soundness w.r.t. [den] is proved: classes and traits, refinements, unions, intersections
+   (no negation, no containers; these are covered by the correspondence and by the laws) *)
+Fixpoint frag (t : ty) : bool :=
+  match t with
+  | TNever | TObj => true
+  | TMono c => registered_mono c
+  | TPoly _ => false
+  | TRef (TMono c) p => existsb (Z.eqb c) value_classes && negb (c =? id_GenericList) && wf_ref c p
+  | TRef _ _ => false
+  | TOr l | TAnd l => (fix all (l : list ty) : bool := match l with [] => true | x :: r => frag x && all r end) l
+  | TNot _ | TList _ _ => false
+  end.
+
+(* the sub-fragment on which the judgement is also complete for [den] (so that transitivity follows from set
+   inclusion): Never, Obj, the value classes that have a value of their own, and unions of them *)
+Definition chain_classes : list Z := [id_Bool; id_Nat; id_Int; id_Float; id_Str; id_NoneType].
+Definition is_chain (t : ty) : bool := match t with TMono c => existsb (Z.eqb c) chain_classes | _ => false end.
+Definition cfrag (t : ty) : bool :=
+  match t with
+  | TNever | TObj => true
+  | TMono _ => is_chain t
+  | TOr l => forallb is_chain l
+  | _ => false
   end.
 
 (* ------------------------------------------------------------------ the laws, as queries on a subtype oracle *)
@@ -177,3 +225,45 @@ Definition q_singleton (ls : list lit) : ty * ty :=
 
 (* transitivity on three answers *)
 Definition judge_trans (st tu su : bool) : bool := implb (st && tu) su.
+
+(* ------------------------------------------------------------------ known classes of failing transitivity instances
+   (known/C06.json).  0: not a known class. *)
+Fixpoint has_not (t : ty) : bool :=
+  match t with
+  | TNot _ => true
+  | TRef b _ => has_not b
+  | TOr l | TAnd l => (fix any (l : list ty) : bool := match l with [] => false | x :: r => has_not x || any r end) l
+  | TList e _ => has_not e
+  | _ => false
+  end.
+(* a List whose length is erased / given *)
+Fixpoint has_list (erased : bool) (t : ty) : bool :=
+  match t with
+  | TList e n => (match n with None => erased | Some _ => negb erased end) || has_list erased e
+  | TRef b _ => has_list erased b
+  | TOr l | TAnd l => (fix any (l : list ty) : bool := match l with [] => false | x :: r => has_list erased x || any r end) l
+  | TNot x => has_list erased x
+  | _ => false
+  end.
+(* the nominal types a type mentions *)
+Fixpoint leaves (t : ty) : list Z :=
+  match t with
+  | TMono c => [c]
+  | TRef b _ => leaves b
+  | TOr l | TAnd l => (fix go (l : list ty) : list Z := match l with [] => [] | x :: r => leaves x ++ go r end) l
+  | TNot x => leaves x
+  | TList e _ => leaves e
+  | _ => []
+  end.
+(* c is declared above a through a chain of super-type lists (and the tower) *)
+Definition reach (a c : Z) : bool := node_mem (c, false) (up_iter 12 [(a, false)]).
+(* ... but the judgement does not see it: the super-type lists of a are not transitively closed *)
+Definition mono_gap (a c : Z) : bool := reach a c && negb (sub (TMono a) (ty_of_id c)).
+
+Definition known_trans (s m t : ty) : Z :=
+  if has_not s || has_not m || has_not t then 1                                   (* negation types *)
+  else if has_list true m && (has_list false s || has_list false t) then 2       (* List(T, _) between List(T, n), List(T, k) *)
+  else if (has_list true s || has_list false s) && existsb (fun c => existsb (Z.eqb c) [id_Type; id_ClassType; id_TraitType]) (leaves m)
+       then 3                                                                     (* a list of types is a Type *)
+  else if existsb (fun a => existsb (fun c => mono_gap a c) (leaves t)) (leaves s) then 4   (* super-type lists not closed *)
+  else 0.
